@@ -68,7 +68,7 @@ func newC05World(kind string, window int) *c05World {
 func TestVerifC05A(t *testing.T) {
 	rep := verifkit.NewReport("C05", "c05a-announcements")
 	defer rep.Finish(t)
-	rep.Rule = "per group type x announcement point j in {0,1,5,120} (messages the sender sealed before announcing): intended recipient (each of its devices) registers and exactly the messages after j open; " +
+	rep.Rule = "per group type x announcement point j in {0,1,5,120} (messages the sender sealed before announcing; j in {1,5} also with a key window of 3 and 12 later messages, so that the window slides past what was precomputed at registration): intended recipient (each of its devices) registers and exactly the messages after j open; " +
 		"wrong recipient, every other group of the recipient, wrong claimed sender, every single-bit flip, truncation and extension of the announcement must be refused with no chain key recorded and no message openable. " +
 		"distinct = (group type, j, manipulation)"
 	ctx := context.Background()
@@ -77,8 +77,11 @@ func TestVerifC05A(t *testing.T) {
 
 	for rI := 0; rI < reps; rI++ {
 		for _, kind := range groupKinds {
-			for _, j := range []int{0, 1, 5, 120} {
-				w := newC05World(kind, 100)
+			for _, jw := range [][2]int{{0, 100}, {1, 100}, {5, 100}, {120, 100}, {1, 3}, {5, 3}} {
+				// (announcement point, key window of every store): with a window of 3 the nine messages sealed after the
+				// announcement make the receiver's window slide past everything it precomputed at registration
+				j, win := jw[0], jw[1]
+				w := newC05World(kind, win)
 				g, s := w.g, w.s
 				sDevPK := s.devicePK(g)
 				sDev := rawPK(sDevPK)
@@ -112,10 +115,14 @@ func TestVerifC05A(t *testing.T) {
 					rep.Violate("C05/announce-error/"+kind, err.Error(), j)
 					continue
 				}
-				if !seal(3, &post) {
+				npost := 3
+				if win < 100 {
+					npost = 3*win + 3
+				}
+				if !seal(npost, &post) {
 					return
 				}
-				tag := fmt.Sprintf("%s/j=%d/rep=%d", kind, j, rI)
+				tag := fmt.Sprintf("%s/j=%d/window=%d/rep=%d", kind, j, win, rI)
 
 				// exactness, observed directly: the recipient's private key opens it to the chain key and counter S held at sealing time
 				dck, err := decryptDeviceChainKey(ann, g, w.t.md(g).member, sDevPK)
